@@ -13,22 +13,34 @@
 #define SVAL(s) (*(cv_i32 *)&(s)->_val)           /* std::optional<int>: payload at offset 0, engaged flag at offset 4       */
 #define SENG(s) (((cv_i8 *)&(s)->_val)[4])
 cv_i8 gh_ret0p;                                   /* logical: the window was sufficient for this subscriber at entry          */
+/* THE POSITION THE PROPERTY SPEAKS ABOUT: gh_delivered_pos = stream position of the value most recently delivered to this subscriber (before the
+ * first delivery: its subscription point).  It is taken from the container model (DPOS = which deque element check_next() was handed,
+ * lib/model_pubsub_dpos.c), NOT from the registration counter; the contract ties the registration to it (PROTO_PRE / proto_post.inc). */
+cv_i64 gh_delivered_pos;
+#define NEXT_BEGIN()   do { gh_dq_ref_id = DQ_REF_NONE; } while (0)
+#define NEXT_END(r)    do { if (r) gh_delivered_pos = gh_dq_ref_id; } while (0)     /* a value was handed to the caller: note where in the stream it sits */
+/* a subscriber that is parked stands exactly ONE PAST the last position delivered to it (it is registered for the position that is not published yet);
+ * this is the abstraction the contract of subscribe_lk(h, sub) uses for "the original's position" of a parked original (ps_spec.h ORIG_DELIVERED) */
+#define PARKED_CHECK() __CPROVER_assert(T._awt != 0 && T._pos == gh_delivered_pos + 1 && T._pos == POS, "a parked subscriber is registered exactly one past the last position delivered to it (the position not yet published)")
 #define EOF_ALLOWED (T._kicked || (CLOSED && T._pos == POS) || POS - T._pos - 1 >= dq_len)   /* kicked | closed and drained | needed position not retained */
 #define PROTO_PRE(s) (cv_exc_pending == 0 && FREE_LOCK && SQ(s) == ps_q && (s)->_h == gh_RH && SENG(s) <= 1 && \
    Q_INV && T_IN && SLOT_INV(T, gh_RH) && SUBSCRIBER_ACTIVE && rg_other_idx == RG_NONE && gh_AW != 0 && gh_aw_state == 0 && \
-   gh_rely_on == 1 && gh_parked == 0 && gh_ret0p <= 1 && (gh_ret0p ==> T_RET))
-#define PROTO_ASSIGNS MODEL_ASSIGNS, LOCK_ASSIGNS, gh_n_unlock_chk, gh_parked, __CPROVER_object_whole(ps_q), __CPROVER_object_whole(s)
+   gh_rely_on == 1 && gh_parked == 0 && gh_ret0p <= 1 && (gh_ret0p ==> T_RET) && \
+   gh_delivered_pos == T._pos)                    /* between two next() the subscriber stands AT the last delivered position (established by every subscribe form and by proto_post.inc) */
+#define PROTO_ASSIGNS MODEL_ASSIGNS, LOCK_ASSIGNS, gh_n_unlock_chk, gh_parked, gh_delivered_pos, __CPROVER_object_whole(ps_q), __CPROVER_object_whole(s)
 /* the position lemma for ONE next(): C16/proto_post.inc (one clause per line), instantiated per protocol form */
 #ifdef CV_HAS_sub_subscribe
 /* co_await sub.next() */
 cv_i1 c16_next_awaited(SUBT *s, AWT *a) {
+  NEXT_BEGIN();
   cv_i1 r = sub_ready(s);                                            /* await_ready()                                       */
   if (!r) {
     cv_i1 susp = sub_subscribe(s, a);                                /* await_suspend(): may park the awaiter               */
-    if (susp) { __CPROVER_assert(0, "SENTINEL reachable: the awaiter gets parked"); gh_parked = 1; }   /* suspended until resumed */
+    if (susp) { __CPROVER_assert(0, "SENTINEL reachable: the awaiter gets parked"); PARKED_CHECK(); gh_parked = 1; }   /* suspended until resumed */
     else { __CPROVER_assert(0, "SENTINEL reachable: await_suspend() says do not suspend"); }
   }
-  return sub_check_next(s);                                          /* await_resume()                                      */
+  r = sub_check_next(s);                                             /* await_resume()                                      */
+  NEXT_END(r); return r;
 }
 cv_i1 c16_next_awaited(SUBT *s, AWT *a)
 __CPROVER_requires(PROTO_PRE(s) && C16_MODE_PRE(s->_t) && a != 0 && a == gh_AW)
@@ -42,7 +54,7 @@ void h_proto_awaited(void) { QT qo; SUBT so; AWT ao; ps_q = &qo; SQ(&so) = &qo; 
 
 #ifdef CV_HAS_sub_next_ready
 /* polled: sub.next_ready() = await_ready() then, only if ready, await_resume().  false = nothing consumed, or end-of-stream */
-cv_i1 c16_next_polled(SUBT *s) { return sub_next_ready(s); }
+cv_i1 c16_next_polled(SUBT *s) { NEXT_BEGIN(); cv_i1 r = sub_next_ready(s); NEXT_END(r); return r; }
 cv_i1 c16_next_polled(SUBT *s)
 __CPROVER_requires(PROTO_PRE(s) && C16_MODE_PRE(s->_t) && SENG(s) == 0)
 __CPROVER_assigns(PROTO_ASSIGNS)
@@ -59,12 +71,12 @@ void h_proto_polled(void) { QT qo; SUBT so; ps_q = &qo; SQ(&so) = &qo; c16_next_
 /* blocking: `bool r = sub.next();` = next_awt::operator bool(): await_ready() [, sync(): await_ready() again, subscribe(a local sync_awaiter),
  * block on its flag if parked], await_resume().  Up to four critical sections, rely at each.  atomic<bool>::wait blocks until the flag
  * is set, which only sync_awaiter::wakeup does, i.e. a resume() of the parked awaiter: the same wake-up assumption as for co_await. */
-void st_atomic_wait(ATOMB *flag, cv_i1 old, cv_i32 mo) { __CPROVER_assert(0, "SENTINEL reachable: the blocking wait is entered"); gh_parked = 1; }
+void st_atomic_wait(ATOMB *flag, cv_i1 old, cv_i32 mo) { __CPROVER_assert(0, "SENTINEL reachable: the blocking wait is entered"); PARKED_CHECK(); gh_parked = 1; }
 #define NOWNER(a) (*(SUBT **)((AWT *)(a) + 1))       /* co_awaiter::_owner follows the awaiter base */
-cv_i1 c16_next_blocking(NAWT *a) { return awt_bool_real(a); }
+cv_i1 c16_next_blocking(NAWT *a) { NEXT_BEGIN(); cv_i1 r = awt_bool_real(a); NEXT_END(r); return r; }
 cv_i1 c16_next_blocking(NAWT *a)
 __CPROVER_requires(PROTO_PRE(NOWNER(a)) && C16_MODE_PRE(NOWNER(a)->_t))
-__CPROVER_assigns(MODEL_ASSIGNS, LOCK_ASSIGNS, gh_n_unlock_chk, gh_parked, __CPROVER_object_whole(ps_q), __CPROVER_object_whole(NOWNER(a)))
+__CPROVER_assigns(MODEL_ASSIGNS, LOCK_ASSIGNS, gh_n_unlock_chk, gh_parked, gh_delivered_pos, __CPROVER_object_whole(ps_q), __CPROVER_object_whole(NOWNER(a)))
 #define S NOWNER(a)
 #include "C16/proto_post.inc"
 #undef S
@@ -85,20 +97,54 @@ void h_lemma_history(void) {
   cv_i64 n = 0; cv_i1 eof = 0;                        /* successful next() so far; end-of-stream seen    */
   cv_i64 obs_pos = 0; cv_i32 obs_val = 0;             /* position / value of observation number gh_OK    */
   while (!eof && nondet_bool())
-  __CPROVER_assigns(MODEL_ASSIGNS, LOCK_ASSIGNS, gh_n_unlock_chk, gh_parked, __CPROVER_object_whole(&qo), __CPROVER_object_whole(&so), n, eof, obs_pos, obs_val)
+  __CPROVER_assigns(MODEL_ASSIGNS, LOCK_ASSIGNS, gh_n_unlock_chk, gh_parked, gh_delivered_pos, __CPROVER_object_whole(&qo), __CPROVER_object_whole(&so), n, eof, obs_pos, obs_val)
   __CPROVER_loop_invariant(cv_exc_pending == 0 && FREE_LOCK && SQ(s) == ps_q && s->_h == gh_RH && s->_t == 0 && SENG(s) <= 1 && eof <= 1 && n < PS_BIG)
   __CPROVER_loop_invariant(Q_INV && T_IN && SLOT_INV(T, gh_RH) && T._used == 1 && T._awt == 0 && rg_other_idx == RG_NONE && gh_parked == 0 && T_RET)
-  __CPROVER_loop_invariant(!eof ==> (T._pos == start + n && (T._kicked || T._pos < POS)))            /* every success moved the position by exactly one */
+  __CPROVER_loop_invariant(!eof ==> (T._pos == start + n && gh_delivered_pos == T._pos && (T._kicked || T._pos < POS)))   /* every success moved the delivered position by exactly one, and the subscriber stands there */
   __CPROVER_loop_invariant(gh_OK < n ==> (obs_pos == start + gh_OK + 1 && (obs_pos == gh_P ==> obs_val == gh_sval)))
   __CPROVER_loop_invariant(eof ==> (T._kicked || (CLOSED && T._pos == POS) || POS - T._pos > MAXL))
   {
     cv_i1 r = c16_next_awaited(s, a);
-    if (r) { if (n == gh_OK) { obs_pos = T._pos; obs_val = SVAL(s); } n++; }
+    if (r) { if (n == gh_OK) { obs_pos = gh_delivered_pos; obs_val = SVAL(s); } n++; }      /* observation = (stream position of the value handed out, the value) */
     else eof = 1;
   }
   __CPROVER_assert(gh_OK < n ==> obs_pos == start + gh_OK + 1, "L: the k-th value received is the one at position subscription point + k + 1 (contiguous, in order, duplicate-free, starting right after the subscription point)");
   __CPROVER_assert((gh_OK < n && obs_pos == gh_P) ==> obs_val == gh_sval, "L: ... and it is the value that was published at that position");
   __CPROVER_assert(eof ==> (T._kicked || (CLOSED && T._pos == POS) || POS - T._pos > MAXL), "L: the first end-of-stream is received only when kicked, when closed and drained, or when fallen more than max behind");
+  __CPROVER_assert(0, "SENTINEL reachable");
+}
+#endif
+
+#ifdef C16_LEMMA_SKIP
+/* L-skip: "The skipping modes only ever move forward (strictly increasing positions)" as a statement about HISTORIES: of any two values a
+ * skipping subscriber receives, the later one sits at a strictly larger stream position, and the first one after its subscription point.
+ * Lemma over the CONTRACT of one next() (c16_next_awaited replaced by its contract, which is enforced on the real code in unit
+ * proto_awaited__skip; the clause C16-skip-forward of proto_post.inc re-establishes `gh_delivered_pos == T._pos`, the part of PROTO_PRE that makes
+ * the one-step clause inductive) for an UNBOUNDED number of next() calls.  Ghost index gh_OK = an arbitrary observation; every later one is compared with it. */
+cv_i64 gh_OK;
+void h_lemma_skip_forward(void) {
+  QT qo; SUBT so; AWT ao; SUBT *s = &so; AWT *a = &ao; ps_q = &qo; SQ(s) = &qo;
+  __CPROVER_assume(PROTO_PRE(s) && (s->_t == 1 || s->_t == 2) && gh_AW == a);
+  cv_i32 t0 = s->_t;
+  cv_i64 start = gh_delivered_pos;                    /* the subscription point (nothing delivered yet)  */
+  cv_i64 n = 0; cv_i1 eof = 0;                        /* successful next() so far; end-of-stream seen    */
+  cv_i64 obs_pos = 0;                                 /* stream position of observation number gh_OK     */
+  while (!eof && nondet_bool())
+  __CPROVER_assigns(MODEL_ASSIGNS, LOCK_ASSIGNS, gh_n_unlock_chk, gh_parked, gh_delivered_pos, __CPROVER_object_whole(&qo), __CPROVER_object_whole(&so), n, eof, obs_pos)
+  __CPROVER_loop_invariant(cv_exc_pending == 0 && FREE_LOCK && SQ(s) == ps_q && s->_h == gh_RH && s->_t == t0 && SENG(s) <= 1 && eof <= 1)
+  __CPROVER_loop_invariant(Q_INV && T_IN && SLOT_INV(T, gh_RH) && T._used == 1 && T._awt == 0 && rg_other_idx == RG_NONE && gh_parked == 0 && (gh_ret0p ==> T_RET))
+  __CPROVER_loop_invariant(!eof ==> (gh_delivered_pos == T._pos && (T._kicked || T._pos < POS)))      /* between two next() the subscriber stands at the last delivered position */
+  __CPROVER_loop_invariant(gh_delivered_pos < PS_BIG && n < PS_BIG && start + n <= gh_delivered_pos && (n == 0 ==> gh_delivered_pos == start))   /* n successes moved the delivered position by at least n */
+  __CPROVER_loop_invariant(gh_OK < n ==> (obs_pos > start && obs_pos <= gh_delivered_pos))
+  {
+    cv_i1 r = c16_next_awaited(s, a);
+    if (r) {
+      if (n > gh_OK) __CPROVER_assert(gh_delivered_pos > obs_pos, "L-skip: a value received later sits at a strictly larger stream position than any value received before (strictly increasing positions, no position twice)");
+      if (n == gh_OK) { obs_pos = gh_delivered_pos; __CPROVER_assert(obs_pos > start, "L-skip: every value received sits after the subscription point"); }
+      n++;
+    } else eof = 1;
+  }
+  __CPROVER_assert(gh_OK < n ==> obs_pos > start, "L-skip: observations lie after the subscription point");
   __CPROVER_assert(0, "SENTINEL reachable");
 }
 #endif
